@@ -1141,7 +1141,7 @@ func main() {
 	modes := [][2]bool{{false, false}, {true, false}, {true, true}, {false, true}}
 
 	// (a) sequential histories
-	nSeq := f.Count(110)
+	nSeq := f.Count(90)
 	for i := 0; i < nSeq; i++ {
 		r := rng.Fork()
 		md := modes[[]int{0, 0, 1, 2, 2, 3}[r.Intn(6)]]
@@ -1172,7 +1172,7 @@ func main() {
 	}
 
 	// (b) concurrent histories (kick off: each call is one critical section)
-	nLin := f.Count(24)
+	nLin := f.Count(20)
 	for i := 0; i < nLin; i++ {
 		r := rng.Fork()
 		online := r.Bool()
@@ -1229,7 +1229,7 @@ func main() {
 	}
 
 	// (c) racing logins
-	nRace := f.Count(36)
+	nRace := f.Count(30)
 	for i := 0; i < nRace; i++ {
 		r := rng.Fork()
 		md := modes[[]int{0, 0, 1, 2, 3}[r.Intn(5)]]
@@ -1271,7 +1271,7 @@ func main() {
 	}
 
 	// (d) kick-existing mode: 3 or 4 sessions of ONE UUID, forced interleaving (exact log) and free-running
-	nKick := f.Count(24)
+	nKick := f.Count(20)
 	for i := 0; i < nKick; i++ {
 		r := rng.Fork()
 		forced := i%2 == 0
